@@ -22,8 +22,30 @@ def arr(D, name):
     return np.array(prog.fvals(ds), dtype=float).reshape(ds[2]) if ds[2] and all(ds[2]) else np.zeros(ds[2])
 
 
+def time_axis_oracle(cfg, D):
+    """the time axis lists exactly the output steps (every outstep-th step from 0) plus the final step,
+    in synchrotron periods; `steps_executed` is counted from the hook trace of the run"""
+    K = D.get("steps_executed")
+    if K is None:
+        return None
+    want = [k for k in range(K) if cfg["outstep"] > 0 and k % cfg["outstep"] == 0] + [K]
+    tv = prog.fvals(D["dsets"]["/Info/AxisValues_t"])
+    exp = [f32(k / float(cfg["N"])) for k in want]
+    if tv != exp:
+        return ("time axis is %s but the run executed %d steps with outstep %d: expected %s (steps %s / %d)"
+                % (tv[-4:], K, cfg["outstep"], exp[-4:], want[-4:], cfg["N"]))
+    pv = prog.fvals(D["dsets"]["/PhaseSpace/axis0"])
+    if not pv or pv[-1] != f32(K / float(cfg["N"])):
+        return "the last stored phase space is labelled t=%s, the run ended at step %d (t=%r)" % (
+            pv[-1:] or None, K, f32(K / float(cfg["N"])))
+    return None
+
+
 def file_oracle(cfg, D):
     """consistency of every record of the dumped file; returns (None | text, key)"""
+    ta = time_axis_oracle(cfg, D)
+    if ta:
+        return ta, None
     ds = D["dsets"]
     n = cfg["n"]
     nb = P.nbunches(cfg)
@@ -146,7 +168,9 @@ def file_oracle(cfg, D):
         for i in range(len(tv)):
             for b in range(nb):
                 s = float(np.sum(sp[i, b])) * df
-                if abs(s - it[i, b]) > 2e-3 * max(abs(it[i, b]), abs(s)) + 1e-30:
+                # the file holds the first nmax/2 frequencies; the intensity also contains the Nyquist bin
+                nyq = 2.0 * df * float(np.max(np.abs(sp[i, b][-2:])))
+                if abs(s - it[i, b]) > 2e-3 * max(abs(it[i, b]), abs(s)) + nyq + 1e-30:
                     return "record %d bunch %d: CSR intensity %r is not the sum of the stored spectrum (%r)" % (i, b, it[i, b], s), None
     # ---------------- wake potential = convolution of the stored profile with the stored impedance (single bunch)
     if P.has_wake(cfg) and len(cfg["cur"]) == 1 and "/Impedance/data/real" in ds:
@@ -169,13 +193,14 @@ def file_oracle(cfg, D):
     return None, None
 
 
-def one_run(exe, h5, cfg, keep=False):
+def one_run(exe, h5, cfg, keep=False, sig=None):
     d = prog.scratch()
     try:
-        r = prog.run_inovesa(exe, P.args_of(cfg), d)
+        r = prog.run_inovesa(exe, P.args_of(cfg), d, sigint_at=sig, trace=True)
         if r.rc != 0 or not os.path.exists(os.path.join(d, "a.h5")):
             return None, "program exited with status %d: %s" % (r.rc, (r.err or r.out)[-400:])
         D = prog.dump(h5, os.path.join(d, "a.h5"))
+        D["steps_executed"] = sum(1 for t in r.trace if t == "loop:projected")
         return D, None
     finally:
         if not keep:
@@ -183,7 +208,8 @@ def one_run(exe, h5, cfg, keep=False):
 
 
 def replay_text(cfg, what):
-    return "# C10: %s\n# configuration: %r\n# command: inovesa %s\n" % (what, cfg, " ".join(P.args_of(cfg)))
+    env = ("INOVESA_VERIF_SIGINT_AT=%d " % cfg["sigint_at"]) if "sigint_at" in cfg else ""
+    return "# C10: %s\n# configuration: %r\n# command: %sinovesa-verif %s\n" % (what, cfg, env, " ".join(P.args_of(cfg)))
 
 
 def renorm_witness():
@@ -199,11 +225,16 @@ def explore(chk, exe, h5, count, quick, tag):
     for cfg in cfgs:
         if rng.random() < 0.6 and not cfg.get("witness"):
             cfg["h5save"] = 1          # store every phase space so that every record can be checked
-        D, err = one_run(exe, h5, cfg)
+        # a third of the runs are interrupted (SIGINT through hook H1) at a random point: their files
+        # must be just as consistent, with the time axis ending at the step actually reached
+        sig = rng.randrange(8, 160) if rng.random() < 0.34 and not cfg.get("witness") else None
+        if sig is not None:
+            cfg["sigint_at"] = sig
+        D, err = one_run(exe, h5, cfg, sig=sig)
         if err:
             fails.append((cfg, err, None))
             continue
-        sched = P.model_schedule(cfg)
+        sched = P.model_schedule(cfg, sig=-1 if sig is None else sig)
         sk = P.skeleton_check(cfg, D, sched)
         if sk:
             mism.append((cfg, sk))
